@@ -44,6 +44,11 @@ ZONE_OFFSET = {'UTC': 0, 'Africa/Lagos': 3600}
 _GEOM = {}
 
 
+def decoy():
+    from mc.lib import decoy as decoy_mod
+    decoy_mod.classification().close()
+
+
 def BOUND(tier):
     return {
         'quick': 'rain n in 3..5; <=2 missing level samples; all level '
